@@ -68,6 +68,9 @@ fn main() {
     panichook::install();
     let code = match prop.as_str() {
         "C02" | "C03" | "C04" | "C05" | "C06" | "C14" | "C15" => props::pool::run(&ctx),
+        "C16" => props::c16::run(&ctx),
+        "C20" => props::c20::run(&ctx),
+        "C10" | "C11" => props::eyes::run(&ctx),
         other => {
             eprintln!("unknown property {other}");
             2
